@@ -47,6 +47,15 @@ def programs(ctx, n):
     return out
 
 
+# inputs rejected at different depths of the translation (inside the head-formula parser, the body theory, the program transformer):
+# a rejected call must leave nothing behind for the calls after it
+REJECTED = ['&tel { > -> b }.', '&tel { a -> }.', '&tel { > > }.', '&tel { a & | b }.', '&tel { 2 > }.', '&tel { (1,2) > a }.', '&tel { &foo }.', '&tel { a >* }.', '&tel { x > a ;> b }.',
+            '#program always.\n&tel { > a | >? }.', ':- &tel { > -> b }.', ':- not &tel { &foo }.', ':- not &tel { x > a }.', "'a_.", '#program foo.\na.', "p'(X) :- q(X), &tel { > }.",
+            '&tel { a ;> }.\n&tel { > b }.', ':- not &del { a .>? }.', '&tel { > a : b }.', "a' :- &tel { > -> b }."]
+CANARIES = ['#program always.\n{c}.\n&tel { >: c }.', '#program always.\n&tel { a | > b }.', '&tel { >* a }.', '&tel { 2 > a ;> b }.', '#program always.\n{a}.\n:- not &tel { > a | a }.',
+            "#program dynamic.\nb :- 'a.\n#program always.\n{a}.\nc' :- a.", '&tel { a >? b & > c }.', '#program initial.\n&tel { > (a & > b) }.\n#program always.\n:- a, not &tel { > b }.']
+
+
 def canon(r):
     if r.get('status') != 'ok':
         return ('error', r.get('type'), r.get('msg'))
@@ -92,6 +101,31 @@ def run(ctx):
         threads = 1 if j % 2 == 0 else 3
         hist_reqs.append({'cmd': 'history', 'ops': ops, 'threads': threads})
         metas.append((idx, ops, threads))
+    # deterministic family: one rejected input, then every canary (translated and solved) in the same process
+    base_c = {}
+    pool = ctx.impl(hashseed=seeds[0])
+    ct = pool.run([{'cmd': 'transform', 'texts': [c]} for c in CANARIES + REJECTED])
+    cs = pool.run([{'cmd': 'solve', 'texts': [c], 'imax': H + 1, 'istop': 'UNKNOWN'} for c in CANARIES], timeout=60)
+    for c, x in zip(CANARIES + REJECTED, ct):
+        base_c[('transform', c)] = canon(x)
+    for c, x in zip(CANARIES, cs):
+        base_c[('solve', c)] = canon(x)
+    for c in CANARIES:
+        if base_c[('transform', c)][0] != 'ok' or base_c[('solve', c)][0] != 'ok' or base_c[('solve', c)][1] == '[]':
+            cex.append({'key': 'c14:canary:' + c.replace('\n', ' '), 'what': 'a fixed valid program is rejected or has no answer set in a fresh process: %s' % json.dumps(base_c[('transform', c)][:3]), 'input': {'texts': [c], 'kind': 'canary', 'H': H}})
+    rej_reqs = []
+    for rj in REJECTED:
+        ops = [['transform', [rj]]] + [[k, [c]] + ([H] if k == 'solve' else []) for c in CANARIES for k in ('transform', 'solve')] + [['transform', [rj]]]
+        rej_reqs.append({'cmd': 'history', 'ops': ops, 'threads': 1})
+    for rq, r in zip(rej_reqs, ctx.impl(hashseed=seeds[0]).run(rej_reqs, timeout=240)):
+        if r.get('status') != 'ok':
+            cex.append({'key': 'c14:history-run', 'what': 'history run fails: %s' % json.dumps({k: r.get(k) for k in ('status', 'type', 'msg')}), 'input': {'ops': rq['ops'], 'threads': 1, 'kind': 'history'}})
+            continue
+        for op, x in zip(rq['ops'], r['results']):
+            if canon(x) != base_c[(op[0], op[1][0])]:
+                cex.append({'key': 'c14:after-rejected:' + rq['ops'][0][1][0].replace('\n', ' '), 'what': '%s of %r after the rejected input %r in the same process differs from a fresh process' % (op[0], op[1][0], rq['ops'][0][1][0]),
+                            'input': {'ops': rq['ops'], 'threads': 1, 'kind': 'history', 'H': H}})
+                break
     hres = ctx.impl(hashseed=seeds[0]).run(hist_reqs, timeout=240)
     for (idx, ops, threads), r in zip(metas, hres):
         if r.get('status') != 'ok':
@@ -103,16 +137,19 @@ def run(ctx):
                 cex.append({'key': 'c14:history:' + ' '.join(op[1]).replace('\n', ' '), 'what': '%s in a long-lived process (%d threads, after other calls) differs from the result of a fresh process' % (op[0], threads),
                             'input': {'ops': ops, 'threads': threads, 'kind': 'history', 'H': H}})
                 break
-    cov = {'evaluations': len(progs) * 2 * len(seeds) + sum(len(m[1]) for m in metas), 'distinct_nontrivial': len(nontriv), 'slow_programs_not_solved_in_histories': len(slow),
+    cov = {'evaluations': len(progs) * 2 * len(seeds) + sum(len(m[1]) for m in metas) + sum(len(q['ops']) for q in rej_reqs), 'rejected_then_valid_histories': len(rej_reqs), 'distinct_nontrivial': len(nontriv), 'slow_programs_not_solved_in_histories': len(slow),
            'rule': 'programs with 3-6 future predicates (arguments, classical negation), look-ahead constraints of depth <= 3, head formulas and body formulas, split over 1-3 input texts; '
                    'transform output and answer sets (horizons 0..%d) compared across PYTHONHASHSEED in %s (fresh interpreters), %d random histories of 12 calls in one process (half of them '
-                   'interleaved in 3 threads); non-trivial = distinct accepted program with at least one answer set' % (H, seeds, nh),
+                   'interleaved in 3 threads), and %d fixed histories "rejected input, then 8 valid programs translated and solved, then the rejected input again"; non-trivial = distinct accepted program with at least one answer set' % (H, seeds, nh, len(REJECTED)),
            'samples': [{'texts': progs[i][1]} for i in (0, 1)]}
     return {'counterexamples': cex[:8], 'coverage': cov}
 
 
 def replay(ctx, payload):
     inp = payload['input']
+    if inp['kind'] == 'canary':
+        r = ctx.impl(n=1).run([{'cmd': 'solve', 'texts': inp['texts'], 'imax': inp['H'] + 1, 'istop': 'UNKNOWN'}])[0]
+        return r.get('status') != 'ok' or not r.get('models')
     if inp['kind'].startswith('hashseed'):
         cmd = {'cmd': 'transform', 'texts': inp['texts']} if inp['kind'] == 'hashseed' else {'cmd': 'solve', 'texts': inp['texts'], 'imax': inp.get('H', 2) + 1, 'istop': 'UNKNOWN'}
         a = canon(ctx.impl(hashseed=inp['seeds'][0]).run([cmd])[0])
